@@ -27,6 +27,7 @@ from common import framework as fw  # noqa: E402
 from common.framework import Case, Failure, Property  # noqa: E402
 from common import env  # noqa: E402
 from common import tokenizer as tk  # noqa: E402
+from common import lexcheck  # noqa: E402
 from common.ctlgen import gen_ctl, lean_str  # noqa: E402
 from common import imgkit  # noqa: E402
 
@@ -301,7 +302,7 @@ from common.py2lean_specs import with_translation  # noqa: E402
 @with_translation
 class C05(Property):
     id = "C05"
-    lean_props = ["TIV.C05.Props"]
+    lean_props = ["TIV.C05.Props", "TIV.Common.LexProofs"]
     driver = "drv_c05"
     partial = ("that real terminals behave like TIV.Common.Term; that the fill string occupies exactly one column "
                "(the library does not check it); Renderable.draw()'s and the image iterators' use of pad is exercised "
@@ -317,6 +318,8 @@ class C05(Property):
         self._collecting = False
         self._prefetched = False
         self._side: dict = {}
+        self._outs: dict = {}  # every real output the oracle looked at (cross-checked in extra_checks)
+        self._lean_wire: dict = {}  # output -> what the Lean lexer read
 
     # -- translator ---------------------------------------------------------------------
     def gen_constants(self):
@@ -824,7 +827,7 @@ class C05(Property):
                 n += len(reqs)
             if batch and (reqs is None or n >= 4000):
                 try:
-                    res = fw.run_driver(self.driver, [q for rq in batch for q in rq])
+                    res = lexcheck.run_batched(self.driver, [q for rq in batch for q in rq])
                 except Exception:
                     res = None
                 if res is not None:
@@ -1013,23 +1016,30 @@ class C05(Property):
         rw, rh, kind = inner["rw"], inner["rh"], inner["kind"]
         l, t, r, b = want
         Wt, Ht = l + rw + r, t + rh + b
-        try:
-            toks = tk.tokenize(out)
-        except tk.TokenizeError as e:
-            return Failure(f"tokenize/{where}", f"padded output is not a sequence of complete control sequences: {e}")
         if not animation and out.count("\n") != Ht - 1:
             return Failure(f"lines/{where}", f"{out.count(chr(10)) + 1} lines, expected {Ht} (render {rw}x{rh}, margins {want})")
         places = self._places(case, Wt, Ht, tag)[:nplaces]
         if animation:  # frames after the first return to column 0
             places = [(W, H, row, 0, top) for (W, H, row, x, top) in places]
-        reqs = []
-        for (W, H, row, x, top) in places:
-            reqs.append(f"term.run {W} {H} {kind} {row} {x} {top} {x} {tk.wire(toks)}")
-            reqs.append(f"term.run {W} {H} {kind} {row + t} {x + l} {top} {x + l} {tk.wire(inner['toks'])}")
+        # the BYTES go to the Lean side: read there by TIV.Lex.lex (proved inverse to the models' printing),
+        # one reading per output, run on every placement
+        reqs = [lexcheck.runbytes_n_request(out, [(W, H, kind, row, x, top, x) for (W, H, row, x, top) in places]),
+                lexcheck.runbytes_n_request(inner["out"], [(W, H, kind, row + t, x + l, top, x + l) for (W, H, row, x, top) in places])]
+        self._outs[out] = None
+        self._outs[inner["out"]] = None
         if self._collecting:
             self._collect.append(reqs)
             return None
-        res = self._cache.pop(tuple(reqs), None) or fw.run_driver(self.driver, reqs)
+        ans = self._cache.pop(tuple(reqs), None) or lexcheck.run_batched(self.driver, reqs)
+        padded, alone = lexcheck.parse_runbytes_n(ans[0]), lexcheck.parse_runbytes_n(ans[1])
+        for o, pr in ((out, padded), (inner["out"], alone)):
+            self._lean_wire[o] = "err lex" if pr is None else " ".join([str(len(pr[0]))] + pr[0])
+        if padded is None:
+            return Failure(f"tokenize/{where}", "padded output is not a sequence of complete, canonical control sequences "
+                           "of the library (rejected by the Lean lexer)")
+        if alone is None:
+            return Failure(f"tokenize-inner/{where}", "the inner render is rejected by the Lean lexer")
+        res = [x for pair in zip(padded[1], alone[1]) for x in pair]
         glyph = {" ": "B", "▀": "U", "▄": "L"}.get(fill, f"C{ord(fill)}" if fill else None)
         for k, (W, H, row, x, top) in enumerate(places):
             f = compare_screens(res[2 * k], res[2 * k + 1], W, H, row, x, top, rw, rh, l, t, r, b, glyph)
@@ -1037,6 +1047,17 @@ class C05(Property):
                 return Failure(f"{f[0]}/{where}", f"{f[1]} (terminal {W}x{H}, cursor at row {row} col {x}, top {top}, "
                                f"inner {rw}x{rh} {d['inner'].get('style')}, margins {want})")
         return None
+
+    def extra_checks(self, rng, tier, ev):
+        """every real output of the run (padded outputs, frames, inner renders), read by the Python tokenizer
+        (still used to build the model request lines) and by the Lean lexer (used by the oracle): identical wire
+        tokens. A disagreement is a defect of the harness → exception → INFRA, exit 2."""
+        outs = list(self._outs)
+        bad = lexcheck.cross_check(self.driver, outs, self._lean_wire)
+        ev["coverage"]["lexer_cross_check"] = {"outputs": len(outs), "disagreements": len(bad), "first": bad[:3]}
+        if bad:
+            raise RuntimeError(f"lexer cross-check: python tokenizer and Lean lexer disagree on {len(bad)} outputs: {bad[0]}")
+        return []
 
     # -- targeted search (run when a tie broke) --------------------------------------------
     def search(self, rng: random.Random, tier: str, reasons):
